@@ -6,7 +6,7 @@ ALL = ["C%02d" % i for i in range(1, 21)]
 CHECKS = {
  "C19": dict(cat="exploration", engine="e2e",
    technique="exhaustive decision table and command histories on the real binary built from the tree, judged by in-process verification of independently decoded proofs",
-   text="setup / gen-test-params / prove / verify / convert-to-raw / export-solidity of the built binary composed through files and pipes at (2,2) (thorough +(3,1)): prove over (--mode flag x keys x params) incl. bogus/absent mode, other mode's, missing and truncated keys, garbage/empty/perturbed parameters; verify over the same (mode x keys) product and (hash x proof) incl. +1, +r, decimal, non-number, absent hash and 8 single-digit tamperings, {}, empty, garbage proofs; histories through converted keys, repeated proofs, verify without proof, other system's proof. Oracle: exit 0 <=> the independently decoded proof verifies in-process for hash mod r under the given keys; prove's stdout is exactly one JSON value + newline.",
+   text="setup / gen-test-params / prove / verify / convert-to-raw / export-solidity of the built binary composed through files and pipes at (2,2) (thorough +(3,1)): prove over (--mode flag x keys x params) incl. bogus/absent mode, other mode's, missing and truncated keys, garbage/empty/perturbed parameters; verify over the same (mode x keys) product and (hash x proof) incl. +1, +r, decimal, leading-zero, non-number, absent hash and 8 single-digit tamperings, {}, empty, garbage proofs and valid re-randomisations of the emitted proof in which each coordinate in turn has leading zero bytes; histories through converted keys, repeated proofs, verify without proof, other system's proof. Oracle: exit 0 <=> the independently decoded proof verifies in-process for hash mod r under the given keys; prove's stdout is exactly one JSON value + newline.",
    note="stderr content is free; gen-test-params is deterministic, so 'many independent proofs' are repeated prove runs (proof randomness), short roots are covered by C08's generator sweep.", ref="DESIGN.md C19"),
 
  "C09": dict(cat="model_checking", engine="schedmc+seqmc",
@@ -14,17 +14,17 @@ CHECKS = {
    text="Both modes at (2,2) with real Groth16: single requests (all methods, every strict prefix of a valid document, all 1-byte bodies, all 2-byte bodies over 16 characters, 23 replacements x 6 fields, shape changes, over-long inputs, +1/+r perturbations) delivered in chunks to one server each, and all request histories of length <=2 (3 thorough) over an 8-letter alphabet on a fresh server each (state = tally of response classes); oracle = 405 / 400 malformed_body / 400 proving_error / 200 as documented, every 200 body decoded by an independent decoder and verified against the request's input hash; a panic escaping the handler or a missing response is a violation.",
    note="net/http connection handling is the vhttp model; documents with absent/null fields or under-specified numeric notation may answer any documented outcome.", ref="DESIGN.md C09"),
  "C13": dict(cat="model_checking", engine="schedmc",
-   technique="stateless DFS over interleavings of two real handler threads (statement-level scheduling points, preemption bound 1/2, state-key pruning) on the instrumented server+prover code; separate free-running -race pass",
-   text="Two (three) concurrent POSTs to the real instrumented handler path (server.go, marshal.go, *_proving_system.go) sharing one real proving system at (1,1): every interleaving of statement-level steps of the handler threads with <=1 preemption (2 thorough) for request pairs in both orders (valid/unsatisfiable/non-numeric/wrong-dims); each response must equal what the request gets on its own, each 200 body must verify for its own input hash and not for the other's. Plus a free-running race-detector pass on real net/http (sample).",
+   technique="stateless DFS over interleavings of two real handler threads (statement-level scheduling points, preemption bound 1/2, no pruning, one execution at a time) on the instrumented server+prover code; separate free-running -race pass",
+   text="Two (three) concurrent POSTs to the real instrumented handler path (server.go, marshal.go, *_proving_system.go) sharing one real proving system at (1,1): every interleaving of statement-level steps of the handler threads with <=1 preemption (2 thorough) for request pairs taken from different tree states (so every field differs) in both orders (valid/unsatisfiable/non-numeric/wrong-dims); each response must equal what the request gets on its own, each 200 body must verify for its own input hash and not for the other's. Plus a free-running race-detector pass on real net/http (sample).",
    note="gnark/promhttp/encoding-json internals are atomic steps; connection set-up and server start/stop interleavings are frozen here (C14 explores them); memory-model effects only via the -race sample.", ref="DESIGN.md C13"),
  "C20": dict(cat="model_checking", engine="schedmc+seqmc",
    technique="explicit-state search over request histories with a scrape after every step + stateless DFS over interleavings of handler threads and scraper threads (preemption bound 1/2) on the real registry and wrapper",
-   text="Sequential: all request sequences of length <=2 (3) over {GET, HEAD, PUT, POST valid, POST unsatisfiable, POST not-JSON} on a fresh real server.Run, scraped through the real metrics handler on the metrics address after every request: per-(method, code) totals must equal the responses sent, no other pair non-zero, in-flight gauge 0. Concurrent: 2-3 clients + 1-2 scrapers, every interleaving of handler-thread steps with <=1 preemption; each scrape is judged against ground truth at the instant the metrics handler ran; exact equality at quiescence.",
+   text="Sequential (also on the real binary over sockets for one mixed load): all request sequences of length <=2 (3) over {GET, HEAD, PUT, POST valid, POST unsatisfiable, POST not-JSON} on a fresh real server.Run, scraped through the real metrics handler on the metrics address after every request: per-(method, code) totals must equal the responses sent, no other pair non-zero, in-flight gauge 0. Concurrent: 2-3 clients + 0-2 scrapers, every interleaving of handler-thread steps with <=1 preemption (<=3 for cheap requests), unpruned; each scrape is judged against ground truth at the instant the metrics handler ran; exact equality at quiescence.",
    note="promhttp/prometheus internals are atomic steps; only standard methods are in the alphabet.", ref="DESIGN.md C20"),
 
  "C14": dict(cat="model_checking", engine="schedmc",
    technique="stateless DFS over thread interleavings of the real, instrumented server/job code under a cooperative scheduler (iterated preemption bound 0,1,2, then unbounded with state-key pruning) against a model of net/http.Server",
-   text="server/job.go and server/server.go are instrumented at check time from the working tree (statement-level scheduling points; go/chan/close/<-/sync rewritten to scheduler-visible operations; http.Server replaced by a model whose steps mirror go1.23 server.go) and executed under a controlled scheduler: driver Run; RequestStop; AwaitStop; then both addresses must be unbound; 0..2 clients whose requests may be refused or, once accepted, must complete; 1..2 start/stop cycles on the same addresses. Invariants on every execution: no deadlock, no panic in start, addresses free when AwaitStop returns, accepted requests complete. All interleavings with <=1 preemption at statement level and <=2 / unbounded preemptions over shared-object operations (state-key pruning).",
+   text="server/job.go and server/server.go are instrumented at check time from the working tree (statement-level scheduling points; go/chan/close/<-/select/sync rewritten to scheduler-visible operations, the random choice of select and the expiry of a Shutdown context being explored decisions; http.Server replaced by a model whose steps mirror go1.23 server.go) and executed under a controlled scheduler: driver Run; RequestStop; AwaitStop; then both addresses must be unbound; 0..2 clients whose requests may be refused or, once accepted, must complete; 1..2 start/stop cycles on the same addresses. Invariants on every execution: no deadlock, no panic in start, addresses free when AwaitStop returns, accepted requests complete. All interleavings with <=1 preemption at statement level and <=2 / unbounded preemptions over shared-object operations (state-key pruning), plus 7 conformance scenarios of the model against the real net/http.Server and end-to-end SIGINT runs of the built binary.",
    note="net/http.Server is a model (vhttp); interleavings inside uninstrumented libraries are atomic; the main.go signal path is not under the explorer. Found and fixed F3.", ref="DESIGN.md C14"),
 
  "C12": dict(cat="exploration", engine="maporder",
@@ -38,7 +38,7 @@ CHECKS = {
 
  "C07": dict(cat="exploration", engine="groth16-real",
    technique="bounded-exhaustive menu: valid batches x every single-field and shape perturbation x candidate public inputs, on real Groth16 setups",
-   text="Real SetupInsertion/SetupDeletion at (2,2) (thorough: +(1,1),(3,2)); valid batches from several tree states; for each, every single-field perturbation and every array-shape perturbation must yield (nil, error) without panic; every returned proof is verified against a public-input menu (hash, hash mod r, +r, +3r accept; +-1, bit flips, 0, r-1, other batches' hashes reject) and against the other mode's system.",
+   text="Real SetupInsertion/SetupDeletion at (2,2) (thorough: +(1,1),(3,2)); valid batches from several tree states; for each, every single-field perturbation, every array-shape perturbation and a set of near-valid batches (what a circuit with a weakened range/emptiness/padding check would accept) must yield (nil, error) without panic; every returned proof is verified against a public-input menu (hash, hash mod r, +r, +3r accept; +-1, bit flips, 0, r-1, other batches' hashes reject) and against the other mode's system.",
    note="Groth16 soundness itself is out of scope; 'every other public input' is the enumerated menu.", ref="DESIGN.md C07"),
  "C08": dict(cat="exploration", engine="ref+cli",
    technique="bounded-exhaustive enumeration of byte-length classes for every packed field and of all gen-test-params dimensions vs the packing written from the statement",
@@ -46,11 +46,11 @@ CHECKS = {
    note="That the circuit enforces this packing is C03's subject. Found and fixed F1 (unpadded roots).", ref="DESIGN.md C08"),
  "C10": dict(cat="exploration", engine="ref",
    technique="bounded-exhaustive product of coordinate-length classes over synthetic curve-point proofs + real proofs until short coordinates occur",
-   text="All combinations (A,B,C) of representative points, one per coordinate-length class found among k*G1,k*G2 (k<=4000/40000), so each of the 8 JSON slots is exercised short and long; JSON must carry the coordinates read from gnark's struct fields in EVM order as 0x-hex; decode(encode(p)) == p; real (1,1) proofs are produced until short coordinates occurred and must still verify after the round trip.",
+   text="All combinations (A,B,C) of representative points, one per coordinate-length class found among k*G1,k*G2 (k<=4000/40000), so each of the 8 JSON slots is exercised short and long; JSON must carry the coordinates read from gnark's struct fields in EVM order as 0x-hex; decode(encode(p)) == p; real (1,1) proofs (plus valid re-randomisations with every coordinate short in turn) must still verify after the round trip.",
    note="Trusts gnark-crypto point encoding. Found and fixed F2 (left-aligned slots).", ref="DESIGN.md C10"),
  "C11": dict(cat="exploration", engine="seqmc",
    technique="explicit-state search over chains of write/read/convert operations on real proving systems; every reached state compared with the origin",
-   text="From fresh setups of both modes at (1,2) (thorough +(3,2),(2,3)): all chains of length 1 and selected (thorough: all) chains of length 2(3) over {compressed, raw} x {memory, file} and the CLI convert-to-raw; each reached system must keep depth/batch, re-serialise byte-identically, prove a batch the original verifies and verify the original's proof.",
+   text="From fresh setups of both modes at (1,2) (thorough +(3,2),(2,3)): all chains of length 1 and selected (thorough: all) chains of length 2(3) over {compressed, raw} x {memory, file} and the CLI convert-to-raw (to another file and in place); each reached system must keep depth/batch, re-serialise byte-identically, prove a batch the original verifies and verify the original's proof.",
    note="Byte equality of the raw re-serialisation stands for key/constraint-system equality.", ref="DESIGN.md C11"),
  "C15": dict(cat="fault_enumeration", engine="fault-enum",
    technique="exhaustive crash-point enumeration: every byte offset of a small proving-system file, structural cut points of real files, CLI on cut files",
@@ -89,7 +89,7 @@ CHECKS = {
 
  "C18": dict(cat="model_checking", engine="seqmc",
    technique="explicit-state search: every update history up to a bound replayed on a fresh real tree vs cache-free reference",
-   text="All update histories up to length 5/4/3 (quick) resp. 7/5/4/3 (thorough) at depth 1/2/3(/4) over all indices x {0,1,r-1}, and all histories up to length 2 (3) over a 6-index boundary alphabet at every depth 4..32, are executed on the real PoseidonTree; after each the root is compared with a from-scratch recomputation and the returned path must authenticate the old value against the old root and the new value against the new root.",
+   text="All update histories up to length 5/4/3 (quick) resp. 7/5/4/3 (thorough) at depth 1/2/3(/4) over all indices x {0,1,r-1, hashes that occur inside the tree (empty-subtree hashes, current root, current sibling)}, and all histories up to length 2 (3) over a 6-index boundary alphabet at every depth 4..32, are executed on the real PoseidonTree; after each the root is compared with a from-scratch recomputation and the returned path must authenticate the old value against the old root and the new value against the new root.",
    note="Trusts iden3 Poseidon (also used by the tree for hashing) and collision resistance for 'untouched leaves keep their values'; histories longer than the bound and values outside the alphabet are not covered.",
    ref="DESIGN.md C18"),
 }
